@@ -1,8 +1,134 @@
-From Coq Require Import ZArith QArith List.
-From PV Require Import Lib.Base Lib.Round Model.C18 Model.C18_Check Proofs.C18.
+(* C18 -- property theorems.  Statements + `exact` only; proofs are in Proofs/C18.v (rationals,
+   closed) and Proofs/C18_real.v (reals; the only theorems allowed to use the stdlib real axioms).
+   The definitions are those of Model/C18.v, the same ones the correspondence evaluates against
+   partitura/musicanalysis/performance_codec.py on every run. *)
+From Coq Require Import ZArith QArith List Sorting.Sorted Sorting.Permutation Reals.
+From PV Require Import Lib.Base Lib.Round Model.C18 Model.C18_Check Proofs.C18 Proofs.C18_real.
 Import ListNotations.
 #[local] Open Scope Q_scope.
 
-Theorem placeholder : sumQ [1] == 1.
-Proof. exact meanQ_single_placeholder. Qed.
-Print Assumptions placeholder.
+(* O1 onsets.  For ANY normalisation (NP, scale, per-chord mean, rescale) whose rescale inverts scale
+   on positives, ANY positive tempo curve bp (tempo_by_average, tempo_by_derivative, user callables),
+   any partition G of the notes into score onsets shared by encoder and decoder: there is ONE shift
+   such that every decoded onset is the performed onset plus that shift. *)
+Theorem decode_encode_onsets :
+  forall (NP : Type) (scale : Q -> NP) (pmean : list NP -> NP) (rescale : NP -> Q) (npdefault : NP)
+         (log2 exp2 : Q -> Q),
+    (forall x k, 0 < x -> rescale (pmean (repeat (scale x) (S k))) == x) ->
+  forall (so sd po pd : list Q) (vel : list Z) (G : list (list nat)) (bp : list Q),
+    groups_ok G (List.length so) = true ->
+    (forall i, (i < List.length G)%nat -> 0 < nthQ bp i) ->
+    exists shift : Q, forall j, (j < List.length so)%nat ->
+      fst (fst (nth j (decode NP pmean rescale npdefault exp2 so sd G
+                         (encode NP scale log2 so sd po pd vel G bp)) (0, 0, 0%Z)))
+      == nthQ po j + shift.
+Proof. exact decode_encode_onsets_lemma. Qed.
+Print Assumptions decode_encode_onsets.
+
+(* O1 durations, for notes with a positive score duration, given 2 ** log2 x = x on positives *)
+Theorem decode_encode_duration :
+  forall (NP : Type) (scale : Q -> NP) (pmean : list NP -> NP) (rescale : NP -> Q) (npdefault : NP)
+         (log2 exp2 : Q -> Q),
+    (forall x k, 0 < x -> rescale (pmean (repeat (scale x) (S k))) == x) ->
+    (forall x, 0 < x -> exp2 (log2 x) == x) ->
+  forall (so sd po pd : list Q) (vel : list Z) (G : list (list nat)) (bp : list Q),
+    groups_ok G (List.length so) = true ->
+    (forall i, (i < List.length G)%nat -> 0 < nthQ bp i) ->
+    forall j, (j < List.length so)%nat -> 0 < nthQ sd j -> 0 < nthQ pd j ->
+      snd (fst (nth j (decode NP pmean rescale npdefault exp2 so sd G
+                         (encode NP scale log2 so sd po pd vel G bp)) (0, 0, 0%Z)))
+      == nthQ pd j.
+Proof. exact decode_encode_duration_lemma. Qed.
+Print Assumptions decode_encode_duration.
+
+(* boundary of O1 (known finding C18-K1): a note without score duration (grace note) decodes to
+   duration 0 whatever was performed -- the full statement "every matched note" is refuted there *)
+Theorem decode_grace_duration_refuted :
+  forall (NP : Type) (scale : Q -> NP) (pmean : list NP -> NP) (rescale : NP -> Q) (npdefault : NP)
+         (log2 exp2 : Q -> Q)
+         (so sd po pd : list Q) (vel : list Z) (G : list (list nat)) (bp : list Q) j,
+    (j < List.length so)%nat -> nthQ sd j == 0 ->
+      snd (fst (nth j (decode NP pmean rescale npdefault exp2 so sd G
+                         (encode NP scale log2 so sd po pd vel G bp)) (0, 0, 0%Z))) == 0.
+Proof. exact decode_grace_duration_lemma. Qed.
+Print Assumptions decode_grace_duration_refuted.
+
+(* boundary of O1 (known finding C18-K2): the matched score holds max(duration, 0.075 s) *)
+Theorem matched_duration_floor : forall d,
+  (floor_pdur <= d -> Qmaxb d floor_pdur == d) /\ (d < floor_pdur -> Qmaxb d floor_pdur == floor_pdur).
+Proof. exact (fun d => conj (floor_pdur_id d) (floor_pdur_short d)). Qed.
+Print Assumptions matched_duration_floor.
+
+(* O1 velocity: every MIDI velocity 1..127 survives v/127 -> round(127 p), clipped to 1..127 *)
+Theorem decode_encode_velocity :
+  (forall v, (1 <= v <= 127)%Z -> dec_vel (enc_vel v) = v) /\
+  forall (NP : Type) (scale : Q -> NP) (pmean : list NP -> NP) (rescale : NP -> Q) (npdefault : NP)
+         (log2 exp2 : Q -> Q)
+         (so sd po pd : list Q) (vel : list Z) (G : list (list nat)) (bp : list Q) j,
+    (j < List.length so)%nat ->
+    snd (nth j (decode NP pmean rescale npdefault exp2 so sd G
+                  (encode NP scale log2 so sd po pd vel G bp)) (0, 0, 0%Z))
+    = dec_vel (enc_vel (nth j vel 0%Z)).
+Proof. exact (conj dec_enc_vel decode_velocity_row). Qed.
+Print Assumptions decode_encode_velocity.
+
+(* the grouping hypothesis of the two theorems above holds for every result of get_unique_onset_idxs
+   (stable sort + split at gaps > eps), in particular for the encoder's and the decoder's groups *)
+Theorem onset_groups_partition :
+  (forall keys eps, groups_ok (groups keys eps) (List.length keys) = true) /\
+  (forall so, groups_ok (enc_groups so) (List.length so) = true /\ groups_ok (dec_groups so) (List.length so) = true).
+Proof. exact (conj groups_partition codec_groups_partition). Qed.
+Print Assumptions onset_groups_partition.
+
+(* the hypotheses are satisfiable: no normalisation and beat_period_ratio are rational instances *)
+Theorem normalisation_instances_Q :
+  (forall x k, 0 < x -> (fun y : Q => y) (meanQ (repeat (id_scale x) (S k))) == x) /\
+  (forall mu x k, ~ mu == 0 -> 0 < x -> ratio_rescale (ratio_pmean (repeat (ratio_scale mu x) (S k))) == x).
+Proof. exact (conj norm_inv_id norm_inv_ratio). Qed.
+Print Assumptions normalisation_instances_Q.
+
+(* O2 matched-note table = exactly the alignment's matches (label 0) whose ids exist on both
+   sides, in alignment order (flat_map); to_matched_score = a permutation of it ordered by
+   score onset, then pitch (then position in the score note array) *)
+Theorem matched_notes_spec :
+  (forall sids pids al i j,
+     In (i, j) (matched_idx sids pids al) <->
+     exists s p, In (0%Z, s, p) al /\ find_idx s sids = Some i /\ find_idx p pids = Some j) /\
+  (forall sids pids al1 al2,
+     matched_idx sids pids (al1 ++ al2) = matched_idx sids pids al1 ++ matched_idx sids pids al2) /\
+  (forall sna pna al,
+     Permutation (matched_sorted sna pna al) (matched_idx (map s_id sna) (map p_id pna) al) /\
+     Sorted (fun a b => lex3_leb (key3 sna a) (key3 sna b) = true) (matched_sorted sna pna al)).
+Proof. exact (conj matched_idx_spec (conj matched_idx_app matched_sorted_spec)). Qed.
+Print Assumptions matched_notes_spec.
+
+Theorem find_idx_spec :
+  (forall id ids i, find_idx id ids = Some i ->
+     (i < List.length ids)%nat /\ nth i ids (-1)%Z = id /\ forall k, (k < i)%nat -> nth k ids (-1)%Z <> id) /\
+  (forall id ids, find_idx id ids = None <-> ~ In id ids).
+Proof. exact (conj find_idx_Some find_idx_None). Qed.
+Print Assumptions find_idx_spec.
+
+(* O3 time maps: with knots (score onset, mean performed onset) strictly increasing in both
+   coordinates, both maps pass through every knot *)
+Theorem time_maps_through_knots : forall K,
+  StronglySorted fst_lt K -> StronglySorted snd_lt K ->
+  forall u p, In (u, p) K -> stime_to_ptime K u == p /\ ptime_to_stime K p == u.
+Proof. exact time_maps_lemma. Qed.
+Print Assumptions time_maps_through_knots.
+
+(* the laws assumed above of log2 / 2** and the five normalisations hold over the reals *)
+Theorem normalisation_inverse_R :
+  (forall x : R, (fun y => y) ((fun y => y) x) = x) /\
+  (forall x, (0 < x)%R -> exp2R (log2R x) = x) /\
+  (forall x mu, mu <> 0%R -> (x / mu * mu)%R = x) /\
+  (forall x mu, (0 < x)%R -> (0 < mu)%R -> (exp2R (log2R (x / mu)) * mu)%R = x) /\
+  (forall x mu sigma, (sigma = 0%R -> x = mu) -> (standardize mu sigma x * sigma + mu)%R = x).
+Proof. exact (conj normalisation_inverse_1 (conj normalisation_inverse_2 (conj normalisation_inverse_3
+        (conj normalisation_inverse_4 normalisation_inverse_5)))). Qed.
+Print Assumptions normalisation_inverse_R.
+
+Theorem articulation_inverse_R : forall pd bp sd : R, (0 < pd)%R -> (0 < bp)%R -> (0 < sd)%R ->
+  (exp2R (log2R (pd / (bp * sd))) * sd * bp)%R = pd.
+Proof. exact articulation_inverse. Qed.
+Print Assumptions articulation_inverse_R.
